@@ -49,6 +49,8 @@ func c19Cases(timeout float64) []c19Case {
 		{Mode: "bad-exec-format", mustErr: true},
 		{Mode: "missing-interpreter", mustErr: true},
 		{Mode: "vanishing", mayErr: true, mayOutput: true, wantOut: "7"},
+		// the executable is held open for writing by someone (updater, editor): it cannot be started (ETXTBSY)
+		{Mode: "text-file-busy", mustErr: true},
 		{Mode: "sleep-beyond-deadline-exec", script: "exec sleep " + over, mustErr: true},
 		{Mode: "sleep-beyond-deadline-child", script: "sleep " + over + "; echo 5", mustErr: true},
 		{Mode: "sleep-ignoring-sigterm", script: "trap '' TERM INT HUP; sleep " + over + "; echo 5", mustErr: true},
@@ -70,7 +72,7 @@ func c19Build(dir string, c *c19Case, n int) string {
 		_ = os.WriteFile(path, []byte{0x7f, 'X', 'Y', 'Z', 0, 1, 2, 3, 4, 5, 6, 7}, 0755)
 	case "missing-interpreter":
 		_ = os.WriteFile(path, []byte("#!/nonexistent/interpreter\necho 1\n"), 0755)
-	case "vanishing":
+	case "vanishing", "text-file-busy":
 		_ = os.WriteFile(path, []byte("#!/bin/sh\necho 7\n"), 0755)
 	default:
 		_ = os.WriteFile(path, []byte("#!/bin/sh\n"+c.script+"\n"), 0755)
@@ -79,13 +81,28 @@ func c19Build(dir string, c *c19Case, n int) string {
 }
 
 type c19Result struct {
+	blocked  bool
 	out      string
 	err      error
 	panicMsg string
 	elapsed  time.Duration
 }
 
+// c19Call runs the call on its own goroutine: a call that has not returned 8 s after its deadline is reported as
+// blocked (that is 3x beyond the violation threshold) instead of blocking the whole batch.
 func c19Call(via string, path string, timeout time.Duration) c19Result {
+	ch := make(chan c19Result, 1)
+	t0 := time.Now()
+	go func() { ch <- c19CallInner(via, path, timeout) }()
+	select {
+	case r := <-ch:
+		return r
+	case <-time.After(timeout + 8*time.Second):
+		return c19Result{err: fmt.Errorf("call still blocked"), elapsed: time.Since(t0), blocked: true}
+	}
+}
+
+func c19CallInner(via string, path string, timeout time.Duration) c19Result {
 	var r c19Result
 	t0 := time.Now()
 	_, r.panicMsg = Guard(func() {
@@ -139,6 +156,11 @@ func c19Check(ctx *Ctx, dir string, c c19Case, n int, mu *sync.Mutex) {
 			}
 		}()
 	}
+	var busy *os.File
+	if c.Mode == "text-file-busy" {
+		// hold a write descriptor on the script for the duration of the call
+		busy, _ = os.OpenFile(path, os.O_WRONLY, 0)
+	}
 	var r c19Result
 	grey := 0
 	for attempt := 0; attempt < 3; attempt++ {
@@ -162,6 +184,9 @@ func c19Check(ctx *Ctx, dir string, c c19Case, n int, mu *sync.Mutex) {
 	}
 	if stopVanish != nil {
 		close(stopVanish)
+	}
+	if busy != nil {
+		_ = busy.Close()
 	}
 	mu.Lock()
 	defer mu.Unlock()
@@ -228,7 +253,7 @@ func init() {
 		for _, via := range []string{"CmdSensor", "CmdFan.GetRpm", "CmdFan.GetPwm", "CmdFan.SetPwm"} {
 			for _, c := range c19Cases(2) {
 				switch c.Mode {
-				case "not-executable", "missing-interpreter", "exit1-with-output", "grandchild-holds-stdout", "sleep-beyond-deadline-child", "non-numeric-output", "empty-output", "ok":
+				case "not-executable", "missing-interpreter", "exit1-with-output", "grandchild-holds-stdout", "sleep-beyond-deadline-child", "non-numeric-output", "empty-output", "ok", "text-file-busy":
 				default:
 					if !ctx.Thorough() {
 						continue
